@@ -290,7 +290,7 @@ Theorem meta_rewrite_stable e d l : (0 <= e < 4294967296)%Z -> date_of_unix e = 
   meta_rewrite d (meta_rewrite d l) = meta_rewrite d l /\ inert (meta_rewrite d l).
 Proof.
   intros He Hd Hi.
-  destruct (date_written_reads_back e d He Hd) as (Hparse & Hlt & Hq & H60 & H62 & Hne).
+  destruct (date_written_reads_back e d He Hd) as (Hparse & Hlt & Hq & H60 & H62 & Hne & _).
   assert (Hsame : meta_rewrite d l = l -> meta_rewrite d (meta_rewrite d l) = meta_rewrite d l /\ inert (meta_rewrite d l)).
   { intros E. rewrite !E. split; [reflexivity | exact Hi]. }
   destruct (meta_find l []) as [[[[[before n] v] after] here]|] eqn:Ef.
